@@ -438,6 +438,8 @@ pub enum Dec {
     Other,
     Err,
     Abort(String),
+    /// the entry points of one codec (from_str / from_slice / from_reader / from_value, ...) disagree on one input
+    Split(String),
 }
 impl Dec {
     pub fn class(&self) -> &'static str {
@@ -445,6 +447,7 @@ impl Dec {
             Dec::Same | Dec::Other => "Ok",
             Dec::Err => "Err",
             Dec::Abort(_) => "Abort",
+            Dec::Split(_) => "Split",
         }
     }
 }
@@ -496,28 +499,35 @@ where
         return Err("serde_bare output is not deterministic".into());
     }
     lens.push(bare.len());
-    match guard(|| serde_bare::from_slice::<T>(&bare).map_err(|e| e.to_string())) {
-        Err(p) => return Err(format!("serde_bare decode aborted: {p}")),
-        Ok(Err(e)) => return Err(format!("serde_bare does not decode its own output: {e}")),
-        Ok(Ok(v)) => {
-            if &v != val {
-                return Err("serde_bare returns another value".into());
-            }
-        }
+    match decode_bare(val, &bare) {
+        (Dec::Abort(p), _) => return Err(format!("serde_bare decode aborted: {p}")),
+        (Dec::Split(p), _) => return Err(format!("serde_bare entry points disagree on the library's own output: {p}")),
+        (Dec::Err, _) => return Err("serde_bare does not decode its own output".into()),
+        (Dec::Other, _) => return Err("serde_bare returns another value".into()),
+        (Dec::Same, _) => {}
     }
-    n += 1;
+    n += 2;
     let js = serde_json::to_string(val).map_err(|e| format!("serde_json encode: {e}"))?;
     lens.push(js.len());
-    match guard(|| serde_json::from_str::<T>(&js).map_err(|e| e.to_string())) {
-        Err(p) => return Err(format!("serde_json decode aborted: {p}")),
-        Ok(Err(e)) => return Err(format!("serde_json does not decode its own output: {e}")),
-        Ok(Ok(v)) => {
-            if &v != val {
-                return Err("serde_json returns another value".into());
-            }
-        }
+    if serde_json::to_vec(val).map_err(|e| e.to_string())? != js.as_bytes() {
+        return Err("serde_json::to_vec and to_string differ".into());
     }
-    n += 1;
+    let doc = serde_json::to_value(val).map_err(|e| format!("serde_json::to_value: {e}"))?;
+    if serde_json::from_str::<Value>(&js).ok().as_ref() != Some(&doc) {
+        return Err("serde_json::to_value and to_string describe different documents".into());
+    }
+    // compact, pretty-printed and string-escaped texts of the same document, each through every entry point
+    let texts = [js.clone(), serde_json::to_string_pretty(val).map_err(|e| e.to_string())?, escape_strings(&doc)];
+    for (i, t) in texts.iter().enumerate() {
+        match decode_json(val, t) {
+            (Dec::Abort(p), _) => return Err(format!("serde_json decode aborted (text form {i}): {p}")),
+            (Dec::Split(p), _) => return Err(format!("serde_json entry points disagree on the library's own output (text form {i}): {p}")),
+            (Dec::Err, _) => return Err(format!("serde_json does not decode its own output (text form {i}: compact / pretty / escaped strings)")),
+            (Dec::Other, _) => return Err(format!("serde_json returns another value (text form {i})")),
+            (Dec::Same, _) => {}
+        }
+        n += 4;
+    }
     Ok((n, lens))
 }
 
@@ -528,18 +538,67 @@ pub fn decode_bytes<T: ByteConv + PartialEq>(orig: &T, b: &[u8]) -> (Dec, Option
         Ok(Ok(v)) => (if &v == orig { Dec::Same } else { Dec::Other }, Some(v)),
     }
 }
-pub fn decode_bare<T: DeserializeOwned + PartialEq>(orig: &T, b: &[u8]) -> (Dec, Option<T>) {
-    match guard(|| serde_bare::from_slice::<T>(b).map_err(|e| e.to_string())) {
+fn dec_of<T: PartialEq>(orig: &T, r: Result<Result<T, String>, String>) -> (Dec, Option<T>) {
+    match r {
         Err(p) => (Dec::Abort(p), None),
         Ok(Err(_)) => (Dec::Err, None),
         Ok(Ok(v)) => (if &v == orig { Dec::Same } else { Dec::Other }, Some(v)),
     }
 }
+/// all entry points of one codec must agree on one input (a decoder that only works on borrowed input, or
+/// only through one front end, is a divergence between API paths that are supposed to be equivalent)
+fn agree<T: PartialEq>(first: (Dec, Option<T>), others: Vec<(&'static str, (Dec, Option<T>))>) -> (Dec, Option<T>) {
+    for (name, (d, v)) in others {
+        if let Dec::Abort(p) = d {
+            return (Dec::Abort(format!("{name}: {p}")), None);
+        }
+        if d.class() != first.0.class() || (d.class() == "Ok" && v != first.1) {
+            return (Dec::Split(format!("{name} returns {} where the first entry point returns {}", d.class(), first.0.class())), None);
+        }
+    }
+    first
+}
+pub fn decode_bare<T: DeserializeOwned + PartialEq>(orig: &T, b: &[u8]) -> (Dec, Option<T>) {
+    let first = dec_of(orig, guard(|| serde_bare::from_slice::<T>(b).map_err(|e| e.to_string())));
+    let rd = dec_of(orig, guard(|| serde_bare::from_reader::<_, T>(std::io::Cursor::new(b.to_vec())).map_err(|e| e.to_string())));
+    agree(first, vec![("serde_bare::from_reader", rd)])
+}
 pub fn decode_json<T: DeserializeOwned + PartialEq>(orig: &T, s: &str) -> (Dec, Option<T>) {
-    match guard(|| serde_json::from_str::<T>(s).map_err(|e| e.to_string())) {
-        Err(p) => (Dec::Abort(p), None),
-        Ok(Err(_)) => (Dec::Err, None),
-        Ok(Ok(v)) => (if &v == orig { Dec::Same } else { Dec::Other }, Some(v)),
+    let first = dec_of(orig, guard(|| serde_json::from_str::<T>(s).map_err(|e| e.to_string())));
+    let mut others = vec![
+        ("serde_json::from_slice", dec_of(orig, guard(|| serde_json::from_slice::<T>(s.as_bytes()).map_err(|e| e.to_string())))),
+        ("serde_json::from_reader", dec_of(orig, guard(|| serde_json::from_reader::<_, T>(std::io::Cursor::new(s.as_bytes().to_vec())).map_err(|e| e.to_string())))),
+    ];
+    // through the document model (owned strings), when the text is a JSON document whose numbers the model represents exactly
+    if let Ok(doc) = serde_json::from_str::<Value>(s) {
+        if serde_json::to_string(&doc).map(|t| strip_ws(&t) == strip_ws(s)).unwrap_or(false) {
+            others.push(("serde_json::from_value", dec_of(orig, guard(|| serde_json::from_value::<T>(doc.clone()).map_err(|e| e.to_string())))));
+        }
+    }
+    agree(first, others)
+}
+fn strip_ws(s: &str) -> String {
+    s.chars().filter(|c| !c.is_whitespace()).collect()
+}
+/// the same JSON document with the first character of every string value written as a \u escape
+/// (a deserializer must then hand out owned text even from a borrowed input)
+pub fn escape_strings(v: &Value) -> String {
+    match v {
+        Value::String(t) => {
+            let mut out = String::from("\"");
+            for (i, c) in t.chars().enumerate() {
+                if i == 0 {
+                    out.push_str(&format!("\\u{:04x}", c as u32));
+                } else {
+                    out.push_str(&serde_json::to_string(&c.to_string()).unwrap().trim_matches('"').to_string());
+                }
+            }
+            out.push('"');
+            out
+        }
+        Value::Array(a) => format!("[{}]", a.iter().map(escape_strings).collect::<Vec<_>>().join(",")),
+        Value::Object(m) => format!("{{{}}}", m.iter().map(|(k, x)| format!("{}:{}", serde_json::to_string(k).unwrap(), escape_strings(x))).collect::<Vec<_>>().join(",")),
+        x => x.to_string(),
     }
 }
 
@@ -780,6 +839,9 @@ where
             let mut f = Outcome::fail(json!({"abort": p, "type": tname, "codec": codec, "mut": m}), "decoder aborted (panic)");
             f.notes.push("abort".into());
             return f;
+        }
+        if let Dec::Split(p) = &d {
+            return Outcome::fail(json!({"split": p, "type": tname, "codec": codec, "mut": m}), format!("the entry points of the {tname}/{codec} decoder disagree on one input: {p}"));
         }
         if d.class() != want {
             return Outcome::fail(json!({"res": d.class(), "type": tname, "codec": codec, "mut": m}), format!("spec predicts {want}, {tname}/{codec} decoder returned {}", d.class()));
